@@ -1314,7 +1314,19 @@ class Frame(object):
         return False
 
     def ev_JoinedStr(self, node, st):
-        return Sym(ast.unparse(node))
+        parts = []
+        for v in node.values:          # an f-string whose fields are all decided strings is that string; otherwise opaque as before
+            if isinstance(v, ast.Constant) and isinstance(v.value, str):
+                parts.append(v.value)
+                continue
+            x = None
+            if isinstance(v, ast.FormattedValue) and v.conversion == -1 and \
+                    (v.format_spec is None or ast.unparse(v.format_spec) in ("f''", "f's'")):
+                x = self.ev(v.value, st, quiet=True)
+            if not (isinstance(x, Const) and isinstance(x.value, str)):
+                return Sym(ast.unparse(node))
+            parts.append(x.value)
+        return Const(''.join(parts))
 
     def ev_Tuple(self, node, st):
         return ListV([self.ev(e, st) for e in node.elts], 'tuple')
